@@ -6,7 +6,7 @@
    property as stated (fields outside valid_field are characterised in design/C35.md). *)
 From Coq Require Import List Bool NArith ZArith.
 From MV Require Import Base.Bytes Model.Headers Model.MultimapSpec
-  Proofs.HeadersRefine Proofs.HeadersLaws Proofs.HeadersRoundtrip Proofs.HeadersRoundtripExact Proofs.HeadersSample.
+  Proofs.HeadersRefine Proofs.HeadersLaws Proofs.HeadersViews Proofs.HeadersRoundtrip Proofs.HeadersRoundtripExact Proofs.HeadersSample.
 Import ListNotations.
 
 (* For every initial pair of header objects and every history of operations (lookup, membership,
@@ -100,6 +100,17 @@ Theorem C35_iter_len : forall (fs : list field),
   /\ (forall k, In k (iter fs) -> In k (map fst fs)).
 Proof. exact iter_law. Qed.
 Print Assumptions C35_iter_len.
+
+(* read views of Headers: items()/keys()/values() never fail and list every name once, in the order
+   and FIRST spelling of iteration, with the folded (comma-space joined) values; the multi=True views
+   are the fields tuple and its projections. *)
+Theorem C35_views : forall (fs : list field),
+  items fs = Some (map (fun k => (k, _reduce_values (get_all fs k))) (iter fs))
+  /\ keys fs = Some (iter fs)
+  /\ values fs = Some (map (fun k => _reduce_values (get_all fs k)) (iter fs))
+  /\ items_multi fs = fs /\ keys_multi fs = map fst fs /\ values_multi fs = map snd fs.
+Proof. exact views_law. Qed.
+Print Assumptions C35_views.
 
 (* HTTP/1 round trip: for every list of valid fields, bytes(headers) followed by the blank line,
    cut into lines (h11) and parsed by _read_headers, is exactly the original list of fields. *)
